@@ -1,6 +1,6 @@
 (* C16 x C03: HerReplayBuffer is a DictReplayBuffer - the ring laws of C03 hold for the data it stores, so a real
    (non-relabelled) HER sample is the data of ONE add among the last `capacity`, same env column; and the batch split. *)
-From SB3V Require Import Lib.Tactics Model.Replay Model.Her Proofs.ReplayProofs Proofs.HerProofs.
+From SB3V Require Import Lib.Tactics Gen.Frag_her Model.Replay Model.Her Proofs.ReplayProofs Proofs.HerProofs.
 Local Open Scope Z_scope.
 
 (* the tags of a stored slot are those of one env column of an add (truncate_last_trajectory may later set done / timeout) *)
